@@ -845,7 +845,9 @@ func (e *Exec) callBuiltin(fr *frame, pos token.Pos, fn *ssa.Builtin, args []Val
 			for i := 0; i < n; i++ {
 				tmp[i] = copyVal(src[i])
 			}
-			copy(dst, tmp)
+			for i := 0; i < n; i++ {
+				assignInto(&dst[i], tmp[i])
+			}
 			return st.Const(64, uint64(n))
 		case string, *SymStr:
 			s := e.symOf(src)
